@@ -1,7 +1,7 @@
 (* C18 - the lemmas behind Properties.v, stated over ALL histories (every state reachable from
    the initial one by any command list), and satisfiable Examples (non-vacuity). *)
 From Coq Require Import List Arith ZArith Bool String Lia.
-From C18 Require Import Gen Model ProofsBase ProofsStorage ProofsInv ProofsErr ProofsTrans ProofsFuel ProofsValues.
+From C18 Require Import Gen Model ProofsBase ProofsStorage ProofsInv ProofsErr ProofsTrans ProofsFuel ProofsValues ProofsReg.
 Import ListNotations.
 Local Open Scope list_scope.
 
@@ -124,7 +124,7 @@ Lemma invalid_transitions : forall gc ops, let s := reach gc ops in
   (forall k, get k (cos s) = None -> co_resume k [] s = (CErr MCO_INVALID_COROUTINE, s)) /\
   (forall k, current s = Some k -> co_resume k [] s = (CErr MCO_NOT_SUSPENDED, s)) /\
   (forall vals, current s = None -> co_yield vals s = (CErr MCO_INVALID_COROUTINE, s)) /\
-  (forall k c, gcon s && DESTROY_UNREGISTERS_FIRST = false -> get k (cos s) = Some c ->
+  (forall k c, get k (cos s) = Some c ->
      (co_st c = Running \/ co_st c = Normal) -> co_destroy k s = (CErr MCO_INVALID_OPERATION, s)) /\
   (forall k c v, get k (cos s) = Some c -> 0 < List.length v -> co_cap c < co_stored c + List.length v ->
      co_push k [v] s = (CErr MCO_NOT_ENOUGH_SPACE, s)) /\
@@ -136,23 +136,36 @@ Proof.
   split; [intros; eapply resume_nil; eauto|].
   split; [intros; eapply resume_self; eauto|].
   split; [intros; eapply yield_from_main; eauto|].
-  split; [intros; eapply destroy_active_nogc; eauto|].
+  split; [intros; eapply destroy_active; eauto|].
   split; [intros; eapply push_overflow_one; eauto|].
   split; [intros; eapply pop_underflow_one; eauto|].
   intros; eapply peek_underflow; eauto.
 Qed.
 
-(* the defect of the unchanged code, characterised exactly *)
-Lemma destroy_active_gc_effect : forall gc ops k c, let s := reach gc ops in
-  gcon s = true -> DESTROY_UNREGISTERS_FIRST = true -> get k (cos s) = Some c -> co_reg c = true ->
-  (co_st c = Running \/ co_st c = Normal) ->
-  co_destroy k s = (CErr MCO_INVALID_OPERATION, set_cos s (put k (set_reg c false) (cos s))) /\
-  co_destroy k (set_cos s (put k (set_reg c false) (cos s))) =
-    (CPanic PANIC_UNREGISTER, set_cos s (put k (set_reg c false) (cos s))).
+(* every live coroutine object is registered in the collector exactly when the program was built with
+   the GC ([gcon]): in a GC build the stack of every coroutine that still exists is scanned *)
+Lemma registered_while_alive : forall gc ops k c, get k (cos (reach gc ops)) = Some c ->
+  co_reg c = gcon (reach gc ops).
+Proof. intros gc ops k c G. exact (run_regok ops (init gc) (init_Inv gc) (init_regok gc) k c G). Qed.
+
+(* destroy in every build: refused on an active coroutine with the whole state (GC registration
+   included) unchanged; a legal destroy removes the object; the assertion of GC:unregister never fails *)
+Lemma destroy_behaviour : forall gc ops k, let s := reach gc ops in
+  (forall c, get k (cos s) = Some c -> (co_st c = Running \/ co_st c = Normal) ->
+     co_destroy k s = (CErr MCO_INVALID_OPERATION, s)) /\
+  (forall c, get k (cos s) = Some c -> (co_st c = Suspended \/ co_st c = Dead) ->
+     co_destroy k s = (COk, set_cos s (del k (cos s))) /\ get k (del k (cos s)) = None) /\
+  (get k (cos s) = None -> co_destroy k s = (CErr MCO_INVALID_COROUTINE, s)) /\
+  (forall m s', co_destroy k s <> (CPanic m, s')).
 Proof.
-  intros gc ops k c s E1 E2 G R H. split.
-  - apply destroy_active_gc; assumption.
-  - apply (destroy_unregistered_panics _ k (set_reg c false)); [exact E1|exact E2|simpl; apply get_put_same|reflexivity].
+  intros gc ops k s. pose proof (reach_Inv gc ops) as I. fold s in I.
+  assert (R : regok s) by (intros j c G; exact (registered_while_alive gc ops j c G)).
+  split; [intros; eapply destroy_active; eauto|].
+  split.
+  - intros c G H. split.
+    + apply (destroy_idle s k c G H). intro E. rewrite (R k c G). exact E.
+    + destruct I as (I1 & _). rewrite get_del by assumption. rewrite Nat.eqb_refl. reflexivity.
+  - split; [apply destroy_nil|]. intros m s'. apply destroy_no_panic; assumption.
 Qed.
 
 (* a failed resume with arguments keeps what coroutine.push stored (documented order) *)
@@ -171,13 +184,13 @@ Qed.
 
 (* ---- facts about the constants scraped from the source *)
 Lemma gen_facts :
-  MCO_ZERO_MEMORY = true /\ 0 < STORAGE_SIZE /\
+  DESTROY_UNREGISTERS_FIRST = false /\ MCO_ZERO_MEMORY = true /\ 0 < STORAGE_SIZE /\
   NoDup (map cstate_code all_cstate) /\ NoDup (map mres_code all_mres) /\ NoDup (map describe all_mres) /\
   status_of_state Suspended = "suspended"%string /\ status_of_state Running = "running"%string /\
   status_of_state Normal = "normal"%string /\ status_of_state Dead = "dead"%string /\
   STATUS_NIL = "dead"%string /\ STATUS_MAIN_RUNNING = "running"%string /\ STATUS_MAIN_NORMAL = "normal"%string.
 Proof.
-  split; [apply zero_memory_on|]. split; [apply storage_size_pos|].
+  split; [apply destroy_order_fixed|]. split; [apply zero_memory_on|]. split; [apply storage_size_pos|].
   split; [apply state_codes_distinct|]. split; [apply result_codes_distinct|].
   split; [apply descriptions_distinct|]. apply status_strings_documented.
 Qed.
@@ -218,21 +231,23 @@ Example ex_invalid :
   co_resume 9 [] (reach true ex_ops) = (CErr MCO_INVALID_COROUTINE, reach true ex_ops) /\
   co_yield [] (reach true []) = (CErr MCO_INVALID_COROUTINE, reach true []) /\
   co_destroy 1 (reach false ex_ops) = (CErr MCO_INVALID_OPERATION, reach false ex_ops) /\
-  benign (ODestroy 1) (reach false ex_ops).
+  co_destroy 1 (reach true ex_ops) = (CErr MCO_INVALID_OPERATION, reach true ex_ops).
 Proof.
   split; [vm_compute; reflexivity|]. split; [vm_compute; reflexivity|]. split; [vm_compute; reflexivity|].
   split; [vm_compute; reflexivity|]. split; [vm_compute; reflexivity|]. split; [vm_compute; reflexivity|].
-  left. vm_compute. reflexivity.
+  vm_compute. reflexivity.
 Qed.
 
-(* the witness of the defect: destroy of the running coroutine, then a legal destroy panics *)
-Example ex_defect :
-  snd (run [OCreate 0 [] false; OResume 0 []; ODestroy 0; OStatus 0; ORet []; ODestroy 0] (init true)) =
+(* the former defect witness on the repaired code: the refused destroy of the running coroutine leaves
+   it registered (status line: reg = true) and the later legal destroy succeeds *)
+Example ex_repaired :
+  snd (run [OCreate 0 [] false; OResume 0 []; ODestroy 0; OStatus 0; ORet []; ODestroy 0; OStatus 0] (init true)) =
   [mkLine None 0 "create" [FS "ok"]; mkLine (Some 0) 0 "start" [];
    mkLine (Some 0) 0 "destroy" [FB false; FS "Invalid operation"];
-   mkLine (Some 0) 0 "status" [FS "running"; FN 0; FB true; FB false; FP None];
+   mkLine (Some 0) 0 "status" [FS "running"; FN 0; FB true; FB true; FP None];
    mkLine (Some 0) 0 "return" []; mkLine None 0 "resume" [FB true; FS ""];
-   mkLine None 0 "panic" [FS "invalid unregister pointer"]]%string.
+   mkLine None 0 "destroy" [FB true; FS ""];
+   mkLine None 0 "status" [FS "dead"; FN 0; FB true; FB false; FP None]]%string.
 Proof. vm_compute. reflexivity. Qed.
 
 (* values across switches: the hypotheses are satisfiable (typed body 2 started with its arguments,
